@@ -280,7 +280,8 @@ def lincomb_cases(rng, tier, S):
         # A. every (alias, scalar pair) combination in the direct and the fallback regime
         for shape in ([(3,), (120,)] if base == 'int' else [(3,), (100,)]):
             for alias in ALIAS:
-                for a, b in pairs:
+                # (float16 / float128 share the code path of float32/64 below 50000 entries: a sample in quick)
+                for a, b in (pairs if (not quick or dtype not in ('float16', 'float128')) else rng.sample(pairs, 8)):
                     run(shape, alias, a, b)
         # B. the BLAS regime (and its borders).  The decision tree is shared with the fallback
         #    regime (covered exhaustively in A); here the three BLAS primitives, the regime rule and
